@@ -160,7 +160,7 @@ def discharge_contracts(rep: Report, modname, n_contracts, timeout_ms, jobs=None
     t_solve = time.time()
     # the solve phase takes well under two minutes on the unchanged tree; the wall-clock budget only bounds the time spent when a change makes
     # many obligations fail at once (each would otherwise run every stage to its timeout): what is cut off is reported as undecided
-    D.run_queries(all_obs, jobs=jobs, timeout_ms=timeout_ms, thorough=(rep.tier == "thorough"), seed=rep.seed, budget_s=(360 if rep.tier == "quick" else 1800))
+    D.run_queries(all_obs, jobs=jobs, timeout_ms=timeout_ms, thorough=(rep.tier == "thorough"), seed=rep.seed, budget_s=(300 if rep.tier == "quick" else 1800))
     rep.extra["solve_wall_s"] = round(time.time() - t_solve, 1)
     rep.n_queries += len(all_obs)
     failed = {}
